@@ -394,7 +394,10 @@ PROPS["C14"] = {
         {"spec": "Lifecycle.tla", "cfg": "Lifecycle_neg_ignores.cfg", "expect": "violation"},
         {"spec": "Lifecycle.tla", "cfg": "Lifecycle_neg_second.cfg", "expect": "violation"},
     ],
-    "drivers": [{"test": "TestLifecycle", "trace_spec": "LifecycleTrace.tla", "trace_cfg": "LifecycleTrace.cfg", "inv_cfg": {"C14": "LifecycleTrace_C14.cfg"}}],
+    "drivers": [{"test": "TestLifecycle", "trace_spec": "LifecycleTrace.tla", "trace_cfg": "LifecycleTrace.cfg", "inv_cfg": {"C14": "LifecycleTrace_C14.cfg"}},
+                # Close of the sweeping provider during its network-size measurement: unreachable under virtual time
+                # (Close waits on a mutex while the measurement's retry sleeps), run in real time, judged on return only
+                {"test": "TestLifecycleRT", "trace_spec": "LifecycleTrace.tla", "trace_cfg": "LifecycleTrace.cfg", "inv_cfg": {"C14": "LifecycleTrace_C14.cfg"}}],
     "assumptions": [
         "a goroutine counts as started by the instance when it is in the bubble after Close, was not there before the instance was built, and is not one of the harness's own (operation and Close callers, scripted host)",
         "operations in flight wait at gated message senders / datastores; the environment eventually answers every parked request (with an error once Close has been called), so an operation that is still running at the end is blocked by the library itself",
